@@ -112,4 +112,30 @@ CheckHistory(term, leaves, ops) == Hist(Den(term, leaves), ops, 1, [h \in {0} |-
 
 (* writers: the bytes a bit writer produced are the written bits, zero padded to a whole byte *)
 WriterOK(chunks, outbits) == outbits = PadRight8(FlatCat(chunks))
+
+(* bitio.Buffer, as required: a first-in first-out queue of bits.  q = the unread bits, oldest first.       *)
+(* ev: write(bits) -> k, err; read(n) -> k, out, eof, err; len -> res; bits -> out (bytes as bits), res; reset *)
+BufOpWhy(q, ev) ==
+    CASE ev.op = "write" -> IF ev.err \/ ev.k # Len(ev.bits) THEN "buffer.write_count" ELSE "ok"
+      [] ev.op = "read"  -> IF ev.err THEN "buffer.read_error"
+                            ELSE IF Len(q) = 0 THEN (IF ev.k # 0 THEN "buffer.bits_from_empty_buffer"
+                                                     ELSE IF ev.n > 0 /\ ~ev.eof THEN "buffer.empty_without_end_of_data" ELSE "ok")
+                            ELSE IF ev.eof THEN "buffer.end_of_data_with_bits_left"
+                            ELSE IF ev.k > Min2(ev.n, Len(q)) THEN "buffer.more_bits_than_asked_or_held"
+                            ELSE IF ev.n > 0 /\ ev.k = 0 THEN "buffer.stall"
+                            ELSE IF ev.out # SubSeq(q, 1, ev.k) THEN "buffer.wrong_bits" ELSE "ok"
+      [] ev.op = "len"   -> IF ev.res # Len(q) THEN "buffer.len" ELSE "ok"
+      [] ev.op = "bits"  -> IF ev.res # Len(q) THEN "buffer.bits_count"
+                            ELSE IF ev.out # PadRight8(q) THEN "buffer.bits_not_padded_unread_bits" ELSE "ok"
+      [] OTHER           -> "ok"
+BufNext(q, ev) ==
+    CASE ev.op = "write" -> q \o ev.bits
+      [] ev.op = "read"  -> SubSeq(q, ev.k + 1, Len(q))
+      [] ev.op = "reset" -> <<>>
+      [] OTHER           -> q
+RECURSIVE BufHist(_, _, _)
+BufHist(ops, i, q) ==
+    IF i > Len(ops) THEN <<0, "ok">>
+    ELSE LET w == BufOpWhy(q, ops[i]) IN IF w # "ok" THEN <<i, w>> ELSE BufHist(ops, i + 1, BufNext(q, ops[i]))
+CheckBuffer(ops) == BufHist(ops, 1, <<>>)
 =============================================================================
